@@ -72,6 +72,22 @@ PROPS["C17"] = {
     },
 }
 
+PROPS["C03"] = {
+    "level": "exploration",
+    "rule": ("each run generates a channel table of 1-5 names from a confusable alphabet (a, ab, a/b, A, 'a ', empty, long, non-ASCII ...), each bound to its own recording target, "
+             "an endpoint allow-list (none or a subset; for websocket servers a second path with its own list), and 1-6 requests (configured, unlisted, unknown, prefix/extension/"
+             "case variants, empty) issued concurrently over one session on a drawn server kind; non-trivial = every request was judged against the routing model; distinct = schedule shapes"),
+    "probes": ["routed_ok", "refusals_observed"],
+    "technique": "deterministic simulation: generated channel tables/allow-lists/requests, concurrent requests, 10-line routing reference model vs target accept logs",
+    "level_text": ("Seeded exploration against a reference routing function (exact, case-sensitive match within the endpoint's filtered list): each request must reach exactly the predicted "
+                   "target (identified by PRF stream content, so a wrong target is named) or be refused with end-of-stream/reset and no data; every target's accept count must equal the predicted multiset."),
+    "level_note": "Fault-free network class only. Requested names are what the client's listener flag syntax can express (it trims surrounding blanks). Duplicate channel names are not generated (the property does not define them).",
+    "tiers": {
+        "quick": {"runs": 2000, "chunk": 125, "shrink_s": 40},
+        "thorough": {"runs": 80000, "chunk": 250, "shrink_s": 120},
+    },
+}
+
 PENDING = "check under construction in this round; see DESIGN.md section 5 for the planned simulation"
 NOT_APPLICABLE = [
     {"property_id": "C08", "reason": "pure function of one byte string (codec Encode/Decode): no schedule, clock, fault or second party for a simulator to control; see DESIGN.md section 6"},
